@@ -24,7 +24,7 @@ RULE = ("fault-free programs from the type-directed generator (shadowing at ever
 
 FAULTS = ["none", "none", "unbound", "unbound", "unbound", "comp-own-var", "objlocal-in-name", "objlocal-in-compkey", "self", "dollar", "superfield", "superindex",
           "insuper", "dup-local", "dup-objlocal", "dup-param", "dup-field", "dup-field-spelling", "pos-after-named", "computed-import", "textblock-import",
-          "dup-comp-locals"]
+          "dup-comp-locals", "dup-param-shadowing", "dup-local-shadowing", "dup-objlocal-shadowing", "dup-method-param-shadowing"]
 
 
 def positions(t, in_obj=False, depth=0, out=None, parent=None, key=None):
@@ -165,6 +165,36 @@ def wrap_fault(pos, fault, sel):
     if fault == "dup-param":
         c[k] = {"k": "call", "f": {"k": "func", "params": [{"name": "pp", "default": None}, {"name": "pp", "default": null}], "body": E}, "args": [{"name": None, "e": null}], "tailstrict": False}
         return ("RepeatedParamName", "pp", None, d + 1)
+    # a repeated name that is *also* bound in an enclosing scope is still a repetition, not shadowing
+    if fault == "dup-param-shadowing":
+        how = sel % 4
+        f = {"k": "func", "params": [{"name": "pp", "default": None}, {"name": "pp", "default": null}], "body": E}
+        callf = {"k": "call", "f": f, "args": [{"name": None, "e": null}], "tailstrict": False}
+        if how == 0:
+            c[k] = {"k": "local", "binds": [{"name": "pp", "params": None, "value": null}], "body": callf}
+        elif how == 1:
+            c[k] = {"k": "call", "f": {"k": "func", "params": [{"name": "pp", "default": None}], "body": callf}, "args": [{"name": None, "e": null}], "tailstrict": False}
+        elif how == 2:
+            c[k] = {"k": "index", "e": {"k": "arraycomp", "body": callf, "spec": [{"k": "for", "var": "pp", "inner": {"k": "array", "items": [null]}}]}, "index": {"k": "number", "text": "0"}}
+        else:
+            c[k] = {"k": "local", "binds": [{"name": "pp", "params": [{"name": "pp", "default": None}, {"name": "pp", "default": null}], "value": E}], "body": null}
+        return ("RepeatedParamName", "pp", None, d + 2)
+    if fault == "dup-method-param-shadowing":
+        c[k] = {"k": "field", "name": "v", "e": {"k": "object", "inside": {"k": "members", "members": [
+            {"k": "local", "bind": {"name": "pp", "params": None, "value": null}},
+            {"k": "method", "name": {"k": "ident", "name": "m"}, "params": [{"name": "pp", "default": None}, {"name": "pp", "default": null}], "vis": ":", "value": null},
+            fld({"k": "ident", "name": "v"}, E)]}}}
+        return ("RepeatedParamName", "pp", None, d + 2)
+    if fault == "dup-local-shadowing":
+        inner = {"k": "local", "binds": [{"name": "dd", "params": None, "value": null}, {"name": "dd", "params": None, "value": null}], "body": E}
+        c[k] = {"k": "local", "binds": [{"name": "dd", "params": None, "value": null}], "body": inner} if sel % 2 == 0 else \
+            {"k": "call", "f": {"k": "func", "params": [{"name": "dd", "default": null}], "body": inner}, "args": [], "tailstrict": False}
+        return ("RepeatedLocalName", "dd", None, d + 2)
+    if fault == "dup-objlocal-shadowing":
+        c[k] = {"k": "local", "binds": [{"name": "dd", "params": None, "value": null}], "body": {"k": "field", "name": "v", "e": {"k": "object", "inside": {"k": "members", "members": [
+            {"k": "local", "bind": {"name": "dd", "params": None, "value": null}}, fld({"k": "ident", "name": "v"}, E),
+            {"k": "local", "bind": {"name": "dd", "params": None, "value": null}}]}}}}
+        return ("RepeatedLocalName", "dd", None, d + 2)
     if fault == "pos-after-named":
         c[k] = {"k": "call", "f": {"k": "func", "params": [{"name": "pp", "default": None}, {"name": "qq", "default": null}], "body": E},
                 "args": [{"name": "pp", "e": null}, {"name": None, "e": {"k": "null", **MARK}}], "tailstrict": False}
@@ -194,6 +224,9 @@ def inject(tree, fault, sel):
     tree = copy.deepcopy(tree)
     wrapper = {"k": "paren", "e": tree}  # gives the root a parent
     pos = positions(wrapper)
+    if fault.endswith("-shadowing"):
+        exp = wrap_fault(pos, fault, sel)
+        return wrapper["e"], exp
     if sel % 2 == 0 and fault in ("comp-own-var", "objlocal-in-compkey", "dup-comp-locals", "dup-param", "pos-after-named", "dup-local", "dup-objlocal",
                                   "dup-field", "dup-field-spelling", "objlocal-in-name"):
         exp = wrap_fault(pos, fault, sel // 2)
